@@ -53,6 +53,17 @@ func corpusCases() []*kase {
 		mk([]string{"let r1 = S0(1)"}, "(&r1 as auth(E0) &{I0})", ref(conj(0), inter(0)), ref(conj(0), inter(0)), refS0(conj(0), inter(0)), ref(conj(0, 1), comp(0))),
 		mk([]string{"let r1 = S0(1)"}, "(&r1 as auth(E0) &{I0})", ref(conj(0), inter(0)), ref(conj(0), inter(0)), refS0(conj(0), inter(0)), ref(disj(0, 1), comp(0))),
 		mk([]string{"let r1 = S0(1)"}, "(&r1 as auth(E0, E1) &{I0})", ref(conj(0, 1), inter(0)), ref(conj(0, 1), inter(0)), refS0(conj(0, 1), inter(0)), ref(conj(1), comp(0))),
+		// entitlement sets of the same kind and size that overlap only partially, inside containers
+		mk([]string{"let r1 = S0(1)"}, "([(&r1 as auth(E0, E1) &S0)] as [auth(E0, E1) &S0])", varr(ref(conj(0, 1), comp(0))), varr(ref(conj(0, 1), comp(0))),
+			&Val{K: "array", CS: -1, T: ref(conj(0, 1), comp(0)), Elems: []*Val{refS0(conj(0, 1), comp(0))}}, varr(ref(conj(0, 2), comp(0)))),
+		mk([]string{"let r1 = S0(1)"}, "([(&r1 as auth(E0 | E1) &S0)] as [auth(E0 | E1) &S0])", varr(ref(disj(0, 1), comp(0))), varr(ref(disj(0, 1), comp(0))),
+			&Val{K: "array", CS: -1, T: ref(disj(0, 1), comp(0)), Elems: []*Val{refS0(disj(0, 1), comp(0))}}, varr(ref(disj(0, 2), comp(0)))),
+		mk(nil, "getAccount(0x1).capabilities.get<auth(E0, E1) &S0>(/public/pc)", capOf(ref(conj(0, 1), comp(0))), prim("AnyStruct"),
+			&Val{K: "cap", T: ref(conj(0, 1), comp(0)), Addr: 1, CapID: 0}, capOf(ref(conj(1, 2), comp(0)))),
+		mk(nil, "({\"a\": getAccount(0x1).capabilities.get<auth(E0, E1) &S0>(/public/pc)} as {String: Capability<auth(E0, E1) &S0>})",
+			dict(prim("String"), capOf(ref(conj(0, 1), comp(0)))), dict(prim("String"), capOf(ref(conj(0, 1), comp(0)))),
+			&Val{K: "dict", T: prim("String"), T2: capOf(ref(conj(0, 1), comp(0))), Keys: []*Val{{K: "string", S: "a"}}, Elems: []*Val{{K: "cap", T: ref(conj(0, 1), comp(0)), Addr: 1, CapID: 0}}},
+			dict(prim("String"), capOf(ref(conj(0, 2), comp(0))))),
 		// optionals: unwrapping, the AnyStruct exception, boxing
 		mk(nil, "((5 as Int) as Int??)", opt(opt(prim("Int"))), prim("AnyStruct"), some(some(five)), prim("Int")),
 		mk(nil, "((5 as Int) as Int??)", opt(opt(prim("Int"))), prim("AnyStruct"), some(some(five)), opt(prim("Int"))),
